@@ -1246,6 +1246,7 @@ func GenCase(t *rapid.T, k Knobs) *Case {
 	g.c.Cfg.Defer = g.pct(k.PDefer, "defer")
 	g.c.Cfg.Recover = g.pct(k.PRecover, "recover")
 	g.c.Cfg.DryFalse = g.pct(4, "dryfalse") // explicit DryRun(false): no effect
+	g.c.Cfg.DryBoth = g.pct(3, "dryboth")   // DryRun(true) then DryRun(false): the later one wins
 	g.c.Cfg.Shadow = g.pct(6, "shadow")     // another container is used first
 	nops := rapid.IntRange(k.MinOps, k.MaxOps).Draw(t, "nops")
 	wDec := k.WDecorate
